@@ -258,7 +258,8 @@ class EObject(ENotifer, metaclass=Metasubinstance):
                 obj.delete()
         seek = set(self._inverse_rels)
         # we also clean all the object references
-        seek.update((self, ref) for ref in self.eClass.eAllReferences())
+        seek.update((self, ref) for ref in self.eClass.eAllReferences()
+                    if not ref.derived)
         for owner, feature in seek:
             fvalue = owner.eGet(feature)
             if feature.many:
